@@ -55,14 +55,14 @@ package origins
 //@   loop 0 decreases end - i
 
 //@ func Tree.IsEmpty
-//@   props C01 C02 C03 C06 C09 C10 C11 C16 C17 C18
+//@   props C01 C17 C18
 //@   pure
 //@   allocs <= 0
 //@   requires t != nil
 //@   ensures result == (t.root.schemes == nil && t.root.children == nil)
 
 //@ func Tree.Contains
-//@   props C01 C02 C03 C09 C10 C11 C13 C16 C17 C18
+//@   props C01 C17 C18
 //@   pure
 //@   allocs <= 0
 //@   requires t != nil && o != nil && NodeOK(addr(t.root)) && 0 <= o.Port && o.Port <= 65535
@@ -74,6 +74,8 @@ package origins
 //@   loop 0 decreases len(host)
 //@   hint when found: found ==> edgeIdx(n, label) == i
 //@   hint when suf: len(suf) == len(n.suf) ==> IsSuffix(n.suf, host)
+//@   hint when suf: len(suf) != len(n.suf) ==> !IsSuffix(n.suf, host)
+//@   hint when suf: Match(n, prefixOfHost, o.Scheme, o.Port) == MatchBody(n, prefixOfHost, o.Scheme, o.Port)
 
 //@ func splitAtCommonSuffix
 //@   props C01 C13 C17 C18
@@ -95,7 +97,7 @@ package origins
 //@   ensures C01.node_membership: found == NodeHas(n, scheme, port, wildcardSubs)
 
 //@ func Parse
-//@   props C01 C02 C03 C09 C10 C11 C13 C16 C17 C18
+//@   props C01 C13 C17 C18
 //@   pure
 //@   allocs <= 0
 //@   ensures C13.parse_ok_iff: result1 == (len(str) <= 327 && parseScheme$2(str) && len(parseScheme$1(str)) >= 3 && parseScheme$1(str)[:3] == "://" && fastParseHost$2(parseScheme$1(str)[3:]) && (len(fastParseHost$1(parseScheme$1(str)[3:])) == 0 || (fastParseHost$1(parseScheme$1(str)[3:])[0] == ':' && parsePort$2(fastParseHost$1(parseScheme$1(str)[3:])[1:]) && len(parsePort$1(fastParseHost$1(parseScheme$1(str)[3:])[1:])) == 0)))
